@@ -1,15 +1,21 @@
-// Verus unit: LaneAlpideFrameAnalyzer::do_lane_alpide_checks (extracted verbatim), verified modularly: a lane
-// is in error iff its bunch counters mismatch, or its chip count is wrong, or (count right) its chip order is
-// wrong. The three predicates are opaque here (Kani: full_alpide_chip_count, full_alpide_chip_order_ib,
-// full_bunch_counters_empty_nopanic).
+// Verus unit: LaneAlpideFrameAnalyzer::{analyze_alpide_frame, do_lane_alpide_checks, has_errors} (extracted verbatim),
+// verified modularly. The analyzer state relevant here is a function of the bytes decoded so far (a fresh analyzer per
+// lane: check_alpide_data_frame, unit v_frame_lanes), written as uninterpreted functions of that byte sequence; the
+// decoder step and the three lane predicates are opaque here (Kani: full_alpide_decode_step, full_alpide_chip_count,
+// full_alpide_chip_order_ib, bnd_alpide_chip_order_ob, full_bunch_counters_empty_nopanic).
+//   * analyze_alpide_frame decodes every byte of the lane exactly once, in order, and records the lane's number;
+//   * a lane that announced a fatal state is not judged (Ok), whatever else its data contains;
+//   * otherwise the lane is in error iff decoding already recorded an error, or its bunch counters mismatch (E9003),
+//     or its chip count is wrong (E9004), or - only when the count is right - its chip order is wrong (E9005).
 use vstd::prelude::*;
+use vstd::std_specs::iter::IteratorSpec;
 verus! {
 
 pub struct Msg;
 #[verifier::external_body]
 fn opaque_msg() -> Msg { Msg }
 
-/// error text buffer: only emptiness matters
+/// error text buffer: only the number of appended messages matters
 pub struct ErrBuf { pub n: Ghost<int> }
 impl ErrBuf {
     #[verifier::external_body]
@@ -18,28 +24,58 @@ impl ErrBuf {
     pub fn is_empty(&self) -> (r: bool) ensures r == (self.n@ == 0) { unimplemented!() }
 }
 
+#[derive(PartialEq, Eq, Structural, Clone, Copy)]
+pub enum Layer { Inner, Middle, Outer }
+pub struct LaneDataFrame { pub id: u8, pub bytes: Vec<u8> }
+pub uninterp spec fn lane_no(id: u8, layer: Layer) -> u8;
+impl LaneDataFrame {
+    #[verifier::external_body]
+    pub fn lane_number(&self, from_layer: Layer) -> (r: u8) ensures r == lane_no(self.id, from_layer) { unimplemented!() }
+    pub fn id(&self) -> (r: u8) ensures r == self.id { self.id }
+    #[verifier::external_body]
+    pub fn data(&self) -> (r: &[u8]) ensures r@ == self.bytes@ { unimplemented!() }
+}
+
+// what the analyzer knows after decoding a byte sequence from a fresh state
+pub uninterp spec fn fatal_of(b: Seq<u8>) -> bool;
+pub uninterp spec fn decode_errs(b: Seq<u8>) -> int;
+pub uninterp spec fn bc_bad_of(b: Seq<u8>) -> bool;
+pub uninterp spec fn count_bad_of(b: Seq<u8>) -> bool;
+pub uninterp spec fn order_bad_of(b: Seq<u8>) -> bool;
+
 pub struct LaneAlpideFrameAnalyzer {
+    pub lane_number: u8,
+    pub from_layer: Option<Layer>,
+    pub lane_status_fatal: bool,
     pub errors: Option<ErrBuf>,
-    pub bc_bad: Ghost<bool>,
-    pub count_bad: Ghost<bool>,
-    pub order_bad: Ghost<bool>,
-    pub order_checked: Ghost<bool>,
+    pub decoded: Ghost<Seq<u8>>,
 }
 
 impl LaneAlpideFrameAnalyzer {
+    /// decoded-so-far determines the flags (fresh analyzer per lane)
+    pub open spec fn inv(&self) -> bool {
+        self.lane_status_fatal == fatal_of(self.decoded@) && (self.errors matches Some(e) && e.n@ == decode_errs(self.decoded@)) && decode_errs(self.decoded@) >= 0
+    }
+    /// one decoder step (Kani full_alpide_decode_step)
     #[verifier::external_body]
-    fn check_bunch_counters(&mut self) -> (r: Result<(), Msg>)
-        ensures r.is_err() == old(self).bc_bad@, final(self).errors == old(self).errors, final(self).bc_bad == old(self).bc_bad,
-            final(self).count_bad == old(self).count_bad, final(self).order_bad == old(self).order_bad, final(self).order_checked == old(self).order_checked
+    fn decode(&mut self, alpide_byte: u8)
+        requires old(self).inv()
+        ensures final(self).inv(), final(self).decoded@ == old(self).decoded@.push(alpide_byte), final(self).lane_number == old(self).lane_number, final(self).from_layer == old(self).from_layer
     { unimplemented!() }
     #[verifier::external_body]
-    fn check_chip_count(&self) -> (r: Result<(), Msg>) ensures r.is_err() == self.count_bad@ { unimplemented!() }
+    fn check_bunch_counters(&mut self) -> (r: Result<(), Msg>)
+        ensures r.is_err() == bc_bad_of(old(self).decoded@), *final(self) == *old(self)
+    { unimplemented!() }
     #[verifier::external_body]
-    fn check_chip_id_order(&self) -> (r: Result<(), Msg>) ensures r.is_err() == self.order_bad@ { unimplemented!() }
+    fn check_chip_count(&self) -> (r: Result<(), Msg>) ensures r.is_err() == count_bad_of(self.decoded@) { unimplemented!() }
+    #[verifier::external_body]
+    fn check_chip_id_order(&self) -> (r: Result<(), Msg>) ensures r.is_err() == order_bad_of(self.decoded@) { unimplemented!() }
 
 //@EXTRACT has_errors
 
 //@EXTRACT do_lane_alpide_checks
+
+//@EXTRACT analyze_alpide_frame
 }
 
 } // verus!
